@@ -835,8 +835,10 @@ class VectorStarSet(object):
                         g11 = np.dot(v1, gv1)
                         g01 = np.dot(v0, gv1)
                         g10 = np.dot(v1, gv0)
-                        if abs((abs(g00 * g11 - g01 * g10) - 1)) > threshold or abs(g01 - g10) > threshold:
-                            # we don't have an orthogonal matrix, or we have a rotation, so kick out
+                        if abs((abs(g00 * g11 - g01 * g10) - 1)) > threshold or abs(g01 - g10) > threshold or \
+                                (g00 * g11 - g01 * g10 > 0 and abs(g00 - 1) > threshold):
+                            # we don't have an orthogonal matrix, or we have a rotation (including the symmetric
+                            # two-fold rotation -1, which must not be mistaken for a mirror), so kick out
                             Nvect = 0
                             continue
                         if (abs(g00 - 1) > threshold) or (abs(g11 - 1) > threshold):
